@@ -120,10 +120,18 @@ func c15Image(t map[string]any) (*memdev.Dev, int64) {
 	case "mbr":
 		size := int64(10 << 20)
 		d := memdev.New(size)
-		tb := &mbr.Table{LogicalSectorSize: 512, PhysicalSectorSize: 512, Partitions: []*mbr.Partition{
-			{Index: 1, Bootable: true, Type: mbr.Linux, Start: 2048, Size: 2048}, {Index: 2, Type: mbr.Fat32LBA, Start: 4096, Size: 1000},
-			{Index: 3, Type: mbr.Linux, Start: 6000, Size: 100}, {Index: 4, Type: mbr.Linux, Start: 7000, Size: 13000}}}
-		tb.Write(d, size)
+		switch str(t, "base") {
+		case "one":
+			tb := &mbr.Table{LogicalSectorSize: 512, PhysicalSectorSize: 512, Partitions: []*mbr.Partition{{Index: 1, Bootable: true, Type: mbr.Linux, Start: 2048, Size: 2048}}}
+			tb.Write(d, size)
+		case "pmbr":
+			d, size = c15Base(512)
+		default:
+			tb := &mbr.Table{LogicalSectorSize: 512, PhysicalSectorSize: 512, Partitions: []*mbr.Partition{
+				{Index: 1, Bootable: true, Type: mbr.Linux, Start: 2048, Size: 2048}, {Index: 2, Type: mbr.Fat32LBA, Start: 4096, Size: 1000},
+				{Index: 3, Type: mbr.Linux, Start: 6000, Size: 100}, {Index: 4, Type: mbr.Linux, Start: 7000, Size: 13000}}}
+			tb.Write(d, size)
+		}
 		b := d.Bytes(0, 512)
 		slot, _ := strconv.Atoi(str(t, "slot"))
 		e := b[446+16*(slot-1):]
